@@ -90,8 +90,50 @@ print('CONFIRMED' if d.max()>1e-9 else 'NOT-CONFIRMED')
 """
 
 
+def _systems_in_a_row(chk):
+    """Through the PUBLIC accessors (compiled-rhs cache included): several systems created one after the other in one process
+    - each one's field, Jacobian and variational right-hand side use ITS OWN mu."""
+    import hiten.algorithms.dynamics.rtbp as rtbp
+
+    def th():
+        s = _np.array([0.83, 0.11, 0.07, 0.02, -0.13, 0.05])
+        y42 = _np.concatenate([_np.eye(6).ravel() * 1.0 + 0.01, s])
+        for mus in ((0.0121505856, 0.3, 3.0e-6), (0.3, 0.0121505856)):
+            for mu in mus:
+                got_f = _np.asarray(rtbp.rtbp_dynsys(mu).rhs(0.0, s), dtype=float)
+                got_J = _np.asarray(rtbp.jacobian_dynsys(mu).rhs(0.0, s), dtype=float)
+                got_V = _np.asarray(rtbp.variational_dynsys(mu).rhs(0.0, y42), dtype=float)
+                want_f = _np.asarray(rtbp._crtbp_accel(s, mu), dtype=float)
+                want_J = _np.asarray(rtbp._jacobian_crtbp(s[0], s[1], s[2], mu), dtype=float)
+                want_V = _np.asarray(rtbp._var_equations(0.0, y42, mu), dtype=float)
+                for what, g, w in (("field", got_f, want_f), ("Jacobian", got_J, want_J), ("variational rhs", got_V, want_V)):
+                    if g.shape != w.shape or not _np.array_equal(g, w):
+                        raise Refuted(f"the {what} of a system with mu = {mu} created after systems with mu in {mus[:mus.index(mu)]} "
+                                      f"is not the one of its own mu (max deviation {float(_np.max(_np.abs(g - w))):.3g})",
+                                      "systems created in a row share compiled right-hand sides",
+                                      replay=_REPLAY_ROW, inputs={"mu sequence": list(mus)})
+    chk.obl("public accessors: field, Jacobian and variational rhs of every system created in a row (mu = 0.01215, 0.3, 3e-6; "
+            "0.3, 0.01215) use the system's OWN mu (compiled-rhs cache included)", "K2 wiring (closed operation histories)",
+            [RT + ":rtbp_dynsys", RT + ":jacobian_dynsys", RT + ":variational_dynsys",
+             "hiten.algorithms.dynamics.base:_DynamicalSystem._compile_rhs_function"], "B4 exact evaluation", th)
+
+
+_REPLAY_ROW = """
+import numpy as np
+from hiten.algorithms.dynamics.rtbp import rtbp_dynsys, _crtbp_accel
+s = np.array([0.83, 0.11, 0.07, 0.02, -0.13, 0.05])
+bad = False
+for mu in (0.0121505856, 0.3, 3.0e-6):
+    d = float(np.max(np.abs(rtbp_dynsys(mu).rhs(0.0, s) - _crtbp_accel(s, mu))))
+    print("mu", mu, "max |rhs - field(own mu)| =", d)
+    bad = bad or d > 1e-12
+print("CONFIRMED" if bad else "NOT-CONFIRMED")
+"""
+
+
 def run(chk):
     loader.install()
+    _systems_in_a_row(chk)
     chk.under_contract(
         RT + ":_crtbp_accel", RT + ":_jacobian_crtbp", RT + ":_var_equations",
         RT + ":_JacobianRHS._build_rhs_impl", RT + ":_VarEqRHS._build_rhs_impl", RT + ":_RTBPRHS._build_rhs_impl",
